@@ -12,8 +12,11 @@
      query value -> str (True/False -> "true"/"false", None -> "", list -> one entry per item, else str());
      header value must be str (str subclasses are sent raw), anything else raises TypeError;
      json= -> Content-Type application/json; files= -> multipart/form-data; data=dict -> form-urlencoded;
-     data=bytes -> raw content WITHOUT a Content-Type.
-   The defects of the unchanged tree are kept (F04a..F04h).  No proofs in this file. *)
+     content=bytes -> raw content without a Content-Type of its own (the generator adds the header);
+     cookies=dict -> Cookie header, values must be str;
+     urllib.parse.quote(v, safe="") / the server's unquote: a quoted value is ONE path segment.
+   The open defects are kept (F04b, F04c, F04d, F04f, F04i); F04a, F04e, F04g, F04h are fixed in the code
+   and the model transcribes the fixed code.  No proofs in this file. *)
 From PG Require Import Lib.Strs.
 From PG Require Export Gen.T_C04.
 
@@ -62,9 +65,10 @@ Fixpoint arg_of (l : list (loc * str * value)) (lc : loc) (n : str) : option val
 
 (* ------------------------------------------------------------------ the observable request *)
 Inductive bobs := ONone | OJson (j : str) | OFiles (fs : list (str * str)) | OForm (kv : list (str * str)) | OBytes (b : str).
-(* r_headers: the per-request headers the client hands to the transport, names as written by the
+(* r_path: the decoded path; r_segs: the decoded segments of the RAW path (what a router sees);
+   r_headers: the per-request headers the client hands to the transport, names as written by the
    generator (httpx lower-cases them on the wire; the correspondence compares modulo that) *)
-Record request := { r_method : str; r_path : str; r_query : list (str * str); r_headers : list (str * str);
+Record request := { r_method : str; r_path : str; r_segs : list str; r_query : list (str * str); r_headers : list (str * str);
                     r_cookies : list (str * str); r_ctype : option str; r_body : bobs }.
 
 (* ------------------------------------------------------------------ python values and renderings *)
@@ -76,10 +80,12 @@ Definition s_true : str := [116;114;117;101].
 Definition s_false : str := [102;97;108;115;101].
 Definition s_None : str := [78;111;110;101].
 
-(* DataclassSerializer.serialize on a parameter value: str/int/float/bool INSTANCES (hence generated
-   Enum members, which subclass str/int) are returned unchanged; date/datetime -> isoformat; lists recurse *)
+(* DataclassSerializer.serialize on a parameter value: Enum members -> their value (checked before the
+   primitives); str/int/float/bool unchanged; date/datetime -> isoformat; lists recurse *)
 Definition ser_scalar (s : scalar) : scalar :=
   match s with
+  | VEnum true v _ => VStr v
+  | VEnum false v _ => VInt v
   | VDate iso => VStr iso
   | VDateTime iso _ => VStr iso
   | _ => s
@@ -148,8 +154,9 @@ Definition wire_files (fs : list (str * str)) : option str * bobs :=
   match fs with [] => (None, ONone) | _ => (Some s_multipart, OFiles fs) end.
 Definition wire_form (kv : list (str * str)) : option str * bobs :=
   match kv with [] => (None, ONone) | _ => (Some s_form, OForm kv) end.
-Definition wire_bytes (b : str) : option str * bobs :=
-  match b with [] => (None, ONone) | _ => (None, OBytes b) end.   (* data=bytes: no Content-Type *)
+(* content=bytes with headers {"Content-Type": ct} (added whenever the bytes argument is not None) *)
+Definition wire_bytes (ct : str) (b : str) : option str * bobs :=
+  match b with [] => (Some ct, ONone) | _ => (Some ct, OBytes b) end.
 
 Inductive ckind := KJson | KMultipart | KForm | KOther.
 Definition kind_of (ct : str) : ckind :=
@@ -176,10 +183,10 @@ Definition send_form (x : pyval) : option (option str * bobs) :=
   | PB (BForm kv) => Some (wire_form kv)
   | _ => None
   end.
-Definition send_bytes (x : pyval) : option (option str * bobs) :=
+Definition send_bytes (ct : str) (x : pyval) : option (option str * bobs) :=
   match x with
   | PNone => Some (None, ONone)
-  | PB (BBytes b) => Some (wire_bytes b)
+  | PB (BBytes b) => Some (wire_bytes ct b)
   | _ => None
   end.
 
@@ -230,6 +237,8 @@ Fixpoint segs_tok (acc : str) (l : list tok) : list str :=
   | TAtom s :: r => segs_tok (acc ++ s) r
   end.
 Definition toks_of_lit (t : str) : list tok := map (fun c => if c =? slash then TSep else TCh c) t.
+Definition tok_str (t : tok) : str := match t with TSep => [slash] | TCh c => [c] | TAtom s => s end.
+Definition flatten (l : list tok) : str := flat_map tok_str l.
 
 Definition env := list (str * pyval).
 Definition env_get (e : env) (x : str) : pyval := match alookup x e with Some v => v | None => PNone end.
@@ -302,7 +311,7 @@ Section Wire.
   Inductive useg := ULit (s : str) | UVar (py : str).
   Inductive body_plan :=
   | BPNone                                  (* json=None, data=None *)
-  | BPStd (k : ckind) (var : str)            (* json=serialize(var) | files=serialize(var) | data=serialize(var) | data=var *)
+  | BPStd (k : ckind) (var : str) (ct : str)  (* json=serialize(var) | files=serialize(var) | data=serialize(var) | content=var + Content-Type ct *)
   | BPDispatch (branches : list (str * ckind)).  (* if var is not None: … elif … else: raise ValueError *)
 
   (* what the generator emits for one operation *)
@@ -310,10 +319,11 @@ Section Wire.
     pl_sig : list str;                         (* argument names after self, in order; duplicates = SyntaxError *)
     pl_bind : list (str * pin * str);          (* python name <- (where it comes from, original name) *)
     pl_accepts_cookie : bool;                  (* cookie parameters are part of the signature *)
-    pl_path_ser : list str;                    (* x = DataclassSerializer.serialize(x) before the URL *)
+    pl_path_ser : list str;                    (* x = quote(str(DataclassSerializer.serialize(x)), safe="") before the URL *)
     pl_url : list useg;
     pl_params : option (list (str * str * bool));   (* key, python name, required;  None = params=None *)
     pl_headers : option (list (str * str * bool));
+    pl_cookies : option (list (str * str * bool));  (* None = no cookies= argument *)
     pl_body : body_plan }.
 
   Definition url_plan (p : list seg) : list useg :=
@@ -332,9 +342,11 @@ Section Wire.
        pl_params := if existsb (fun p => loc_eqb (p_loc p) Query) (o_params o)
                     then Some (dict_plan Query is) else None;
        pl_headers := if existsb (is_in Header) is then Some (dict_plan Header is) else None;
+       pl_cookies := if existsb (fun p => loc_eqb (p_loc p) Cookie) (o_params o)
+                     then Some (dict_plan Cookie is) else None;
        pl_body := match primary (o_body o) with
                   | None => BPNone
-                  | Some ct => BPStd (kind_of ct) (body_var_std ct)
+                  | Some ct => BPStd (kind_of ct) (body_var_std ct) ct
                   end |}.
 
   Definition body_var_multi (ct : str) : str :=
@@ -365,6 +377,7 @@ Section Wire.
        pl_url := url_plan (o_path o);
        pl_params := None;
        pl_headers := None;
+       pl_cookies := None;
        pl_body := BPDispatch (map (fun ct => (body_var_multi ct, kind_of ct)) (o_body o)) |}.
 
   Definition is_multi (o : op) : bool :=
@@ -393,14 +406,21 @@ Section Wire.
   Definition assigned_cookie (a : args) : bool :=
     existsb (fun k => match k with (Cookie, _, _) => true | _ => false end) (a_params a).
 
-  Definition eval_url (path_ser : list str) (e : env) (u : list useg) : option str :=
-    opt_concat (map (fun s => match s with
-                              | ULit t => Some t
+  (* the f-string, as pieces: a literal contributes its characters ('/' separates segments); a variable
+     that went through quote(…, safe="") contributes ONE atom; a variable interpolated raw (dispatch
+     implementation) contributes its characters like a literal *)
+  Definition eval_url (path_ser : list str) (e : env) (u : list useg) : option (list tok) :=
+    option_map (@concat tok)
+      (opt_all (map (fun s => match s with
+                              | ULit t => Some (toks_of_lit t)
                               | UVar x => match alookup x e with
                                           | None => None                         (* NameError *)
-                                          | Some pv => fmt_py (if mem_str x path_ser then ser_py pv else pv)
+                                          | Some pv =>
+                                              if mem_str x path_ser
+                                              then option_map (fun w => [TAtom w]) (fmt_py (ser_py pv))
+                                              else option_map toks_of_lit (fmt_py pv)
                                           end
-                              end) u).
+                              end) u)).
 
   (* {"k": serialize(x), **({"k2": serialize(y)} if y is not None else {})} *)
   Definition eval_dict (e : env) (d : list (str * str * bool)) : list (str * pyval) :=
@@ -416,9 +436,9 @@ Section Wire.
   Definition expand_headers (d : list (str * pyval)) : option (list (str * str)) :=
     opt_all (map (fun kv => match h_py (snd kv) with Some s => Some (fst kv, s) | None => None end) d).
 
-  Definition send_kind (k : ckind) (x : pyval) : option (option str * bobs) :=
+  Definition send_kind (k : ckind) (ct : str) (x : pyval) : option (option str * bobs) :=
     match k with
-    | KJson => send_json x | KMultipart => send_files x | KForm => send_form x | KOther => send_bytes x
+    | KJson => send_json x | KMultipart => send_files x | KForm => send_form x | KOther => send_bytes ct x
     end.
 
   (* dispatch branch: json -> json=serialize(x); multipart -> files=x; anything else -> data=serialize(x)
@@ -442,9 +462,9 @@ Section Wire.
   Definition eval_body (e : env) (b : body_plan) : option (option str * bobs) :=
     match b with
     | BPNone => Some (None, ONone)
-    | BPStd k x => match alookup x e with
+    | BPStd k x ct => match alookup x e with
                    | None => None                  (* NameError: the body variable is not an argument *)
-                   | Some v => send_kind k v
+                   | Some v => send_kind k ct v
                    end
     | BPDispatch bs => dispatch e bs
     end.
@@ -456,16 +476,20 @@ Section Wire.
       let e := map (bind o a) (pl_bind pl) in
       match eval_url (pl_path_ser pl) e (pl_url pl) with
       | None => None
-      | Some url =>
+      | Some toks =>
           let q := match pl_params pl with Some d => expand_query (eval_dict e d) | None => [] end in
           match (match pl_headers pl with Some d => expand_headers (eval_dict e d) | None => Some [] end) with
           | None => None                                             (* httpx: TypeError *)
           | Some hs =>
-              match eval_body e (pl_body pl) with
-              | None => None
-              | Some (ct, body) =>
-                  Some {| r_method := o_method o; r_path := url; r_query := q; r_headers := hs;
-                          r_cookies := []; r_ctype := ct; r_body := body |}
+              match (match pl_cookies pl with Some d => expand_headers (eval_dict e d) | None => Some [] end) with
+              | None => None                                         (* httpx/cookiejar: TypeError *)
+              | Some cs =>
+                  match eval_body e (pl_body pl) with
+                  | None => None
+                  | Some (ct, body) =>
+                      Some {| r_method := o_method o; r_path := flatten toks; r_segs := segs_tok [] toks;
+                              r_query := q; r_headers := hs; r_cookies := cs; r_ctype := ct; r_body := body |}
+                  end
               end
           end
       end.
@@ -522,14 +546,14 @@ Section Wire.
     | Some (ct, BFiles fs) => (Some ct, OFiles fs)
     | Some (ct, BForm []) => (@None str, ONone)
     | Some (ct, BForm kv) => (Some ct, OForm kv)
-    | Some (ct, BBytes []) => (@None str, ONone)
+    | Some (ct, BBytes []) => (Some ct, ONone)
     | Some (ct, BBytes b) => (Some ct, OBytes b)
     end.
 
   Definition Spec (o : op) (a : args) (r : request) : Prop :=
     r_method r = o_method o
     /\ Some (r_path r) = spec_path o a
-    /\ Some (segments (r_path r)) = spec_segments o a      (* each value stays inside its own segment *)
+    /\ Some (r_segs r) = spec_segments o a                 (* each value stays inside its own segment *)
     /\ (forall n, values_at n (r_query r) = expected o a Query n)
     /\ (forall n, values_at n (r_headers r) = expected o a Header n)
     /\ (forall n, values_at n (r_cookies r) = expected o a Cookie n)
@@ -586,21 +610,25 @@ Section Wire.
        | None => negb (o_body_required o) || match o_body o with [] => true | _ => false end
        end.
 
-  (* ================================================================ guards (one per finding) *)
-  (* F04a: a cookie parameter is supplied (it is in the signature and never sent) *)
-  Definition guard_F04a (o : op) (a : args) : bool := negb (assigned_cookie a).
+  (* ================================================================ guards (one per OPEN finding) *)
+  Definition known_kind (ct : str) : bool := match kind_of ct with KOther => false | _ => true end.
+  Definition no_slash (s : str) : bool := forallb (fun c => negb (c =? slash)) s.
 
-  (* F04b: the multi-content-type implementation bypasses the parameter plumbing: query/header
-     arguments are never sent, path values are not serialised (date-time), an omitted optional body
-     raises ValueError *)
+  (* F04b: the multi-content-type implementation bypasses the parameter plumbing: query/header arguments
+     are never sent, cookie parameters are not accepted, path values are interpolated raw (not serialised:
+     date-time, Enum members; not percent-encoded: '/'), an omitted optional body raises ValueError, and
+     media types other than json/multipart/form go through serialize() (outside the model) *)
+  Definition raw_ok (s : scalar) : bool :=
+    no_slash (wire s) && match s with VEnum _ _ _ | VDateTime _ _ => false | _ => true end.
   Definition guard_F04b (o : op) (a : args) : bool :=
     negb (is_multi o)
     || (forallb (fun k => match k with
-                          | (Query, _, _) | (Header, _, _) => false
-                          | (Path, _, Sc (VDateTime _ _)) => false
-                          | _ => true
+                          | (Path, _, Sc s) => raw_ok s
+                          | (Path, _, Arr _) => true
+                          | _ => false
                           end) (a_params a)
-        && match a_body a with Some _ => true | None => false end).
+        && match a_body a with Some _ => true | None => false end
+        && forallb known_kind (o_body o)).
 
   (* F04c: two arguments of the generated signature get the same python name *)
   Definition guard_F04c (o : op) (a : args) : bool := nodup_str (pl_sig (plan_of o)).
@@ -613,52 +641,27 @@ Section Wire.
        | Some ct => negb (mem_str (body_var_std ct) (map (fun p => mn (p_name p)) (o_params o)))
        end.
 
-  (* F04e: values whose str() is not their wire form: Enum members in path/query (sent as
-     "Class.MEMBER"), booleans in the path ("True") *)
-  Definition scalar_plain (in_path : bool) (s : scalar) : bool :=
-    match s with
-    | VEnum _ _ _ => false
-    | VBool _ => negb in_path
-    | _ => true
+  (* F04f: a header or cookie argument that is not a str after serialisation (integer, boolean,
+     int-Enum, array) makes httpx raise TypeError *)
+  Definition str_like (v : value) : bool :=
+    match ser_value v with
+    | Sc (VStr _) => true
+    | _ => false
     end.
-  Definition guard_F04e (o : op) (a : args) : bool :=
-    forallb (fun k => match k with
-                      | (Path, _, Sc s) => scalar_plain true s
-                      | (Path, _, Arr l) => forallb (scalar_plain true) l
-                      | (Query, _, Sc s) => scalar_plain false s
-                      | (Query, _, Arr l) => forallb (scalar_plain false) l
-                      | _ => true
-                      end) (a_params a).
-
-  (* F04f: a header argument that is not a str instance (integer, boolean, date, array) -> TypeError *)
   Definition guard_F04f (o : op) (a : args) : bool :=
     forallb (fun k => match k with
-                      | (Header, _, Sc (VStr _)) | (Header, _, Sc (VEnum true _ _)) => true
-                      | (Header, _, _) => false
+                      | (Header, _, v) | (Cookie, _, v) => str_like v
                       | _ => true
                       end) (a_params a).
 
-  (* F04g: a non-empty body of a content type other than json/multipart/form is sent without Content-Type
-     (several content types: bytes go through serialize -> base64 text, outside the model) *)
-  Definition known_kind (ct : str) : bool := match kind_of ct with KOther => false | _ => true end.
-  Definition guard_F04g (o : op) (a : args) : bool :=
-    if is_multi o then forallb known_kind (o_body o)
-    else match a_body a with
-         | Some (ct, BBytes (_ :: _)) => false
-         | _ => true
-         end.
-
-  (* F04h: a path value containing '/' is interpolated unescaped and becomes several segments
-     ('?', '#', '%' are not escaped either; those change httpx's URL parsing and are outside the model) *)
-  Definition no_slash (s : str) : bool := forallb (fun c => negb (c =? slash)) s.
-  Definition guard_F04h (o : op) (a : args) : bool :=
+  (* F04i (the rest of F04e): a boolean path value is rendered by str(): "True"/"False" *)
+  Definition guard_F04i (o : op) (a : args) : bool :=
     forallb (fun k => match k with
-                      | (Path, _, Sc s) => no_slash (wire s)
+                      | (Path, _, Sc (VBool _)) => false
                       | _ => true
                       end) (a_params a).
 
   Definition guards (o : op) (a : args) : list bool :=
-    [guard_F04a o a; guard_F04b o a; guard_F04c o a; guard_F04d o a; guard_F04e o a; guard_F04f o a;
-     guard_F04g o a; guard_F04h o a].
+    [guard_F04b o a; guard_F04c o a; guard_F04d o a; guard_F04f o a; guard_F04i o a].
   Definition guard (o : op) (a : args) : bool := forallb (fun b => b) (guards o a).
 End Wire.
